@@ -353,8 +353,31 @@ def run_userff(case):
     return res
 
 
+def run_userff_sequence(case):
+    """A-B-C-A history of user force-field pairs in ONE process: a second
+    pair must not see anything of the first (parameters are a function of
+    the files given to this run)."""
+    out = {"evals": 0, "violations": [], "events": {}, "nontrivial": []}
+    seen = set()
+    for k, step in enumerate(case["steps"]):
+        sub = dict(step, mode="userff", desc=case["desc"])
+        r = run_userff(sub)
+        out["evals"] += r["evals"]
+        out["nontrivial"] += r["nontrivial"]
+        for ev, n in r["events"].items():
+            out["events"][ev] = out["events"].get(ev, 0) + n
+        for v in r["violations"]:
+            sig = v["sig"].replace("C01/e2e-userff", f"C01/e2e-userff-seq@{k}")
+            if sig not in seen:
+                seen.add(sig)
+                out["violations"].append({"sig": sig, "detail": v["detail"]})
+    return out
+
+
 def run_case(case):
     mode = case["mode"]
+    if mode == "userff_sequence":
+        return run_userff_sequence(case)
     if mode == "table":
         return run_table(case)
     if mode == "program":
@@ -414,6 +437,18 @@ def enumerate_cases(tier, seed):
             cases.append({"mode": "userff", "pair": "bundled",
                           "desc": {"x": x, "pos": pos,
                                    "waters": [[9.0, 9.0, 9.0]]}})
+    # histories of user pairs inside one process (A, B, C, A)
+    for x in ("GLY", "ALA"):
+        for pos in corpus.POSITIONS:
+            cases.append({
+                "mode": "userff_sequence", "desc": {"x": x, "pos": pos},
+                "steps": [{"pair": "bundled"},
+                          {"pair": "generated",
+                           "program": ["literal", "regex_prefix", "alias"]},
+                          {"pair": "generated",
+                           "program": ["literal", "alias", "alias_chain",
+                                       "overlay"]},
+                          {"pair": "bundled"}]})
     for program in (["literal", "regex_prefix", "alias"],
                     ["literal", "alias", "alias_chain", "overlay"]):
         for x in ("GLY", "ALA"):
